@@ -32,7 +32,7 @@ pub fn spec(id: &str) -> Option<CheckSpec> {
             level: "fault_enumeration",
             owns: &["content-integrity", "crash-read", "crash-atomicity", "fault-surface", "read-exact", "missing-content", "exists", "lookup"],
             runs: (120, 1500),
-            rule: "a run = one write shape (entry point x size around the mmap threshold x chunking x declared size x flavour x cold/warm cache x address already present); inside it EVERY kill point (before each filesystem system call of the write) and, for each data-carrying call, torn lengths {0,1,len/2,len-1} (quick) / more (thorough) then kill are enumerated; evaluations counts simulated executions. After every executed system call every file named by it under content-v2 is re-hashed (I1); after the kill the whole content area is scanned and fresh readers of all flavours must see 'absent' or the exact bytes. Non-trivial = the kill landed after the temp file existed; distinct by hash of the normalised system-call trace. A third of the runs first make the publishing rename fail (EXDEV/EACCES/EIO/ENOSPC) and enumerate the kills of the error path; async victims run under a canonical-first, reverse or seeded-random schedule of their own pool threads (fixed per enumeration); some async victims drop one write future after a single poll and go on with other data",
+            rule: "a run = one write shape (entry point x size around the mmap threshold x chunking x declared size x flavour x cold/warm cache x address already present); inside it EVERY kill point (before each filesystem system call of the write) and, for each data-carrying call, torn lengths {0,1,len/2,len-1} (quick) / more (thorough) then kill are enumerated; evaluations counts simulated executions. After every executed system call every file named by it under content-v2 is re-hashed (I1); after the kill the whole content area is scanned and fresh readers of all flavours must see 'absent' or the exact bytes. Non-trivial = the kill landed after the temp file existed; distinct by hash of the normalised system-call trace. A third of the runs first make the publishing rename fail (EXDEV/EACCES/EIO/ENOSPC) and enumerate the kills of the error path; async victims run under a canonical-first, reverse or seeded-random schedule of their own pool threads (fixed per enumeration); some async victims drop one write future after a single poll and go on with other data; some shapes declare an integrity that names other data (nothing may appear under that address). 120 shapes in the quick tier",
             assumptions: A_SYS,
         },
         "C04" => CheckSpec {
@@ -50,7 +50,7 @@ pub fn spec(id: &str) -> Option<CheckSpec> {
             level: "fault_enumeration",
             owns: &["fault-surface", "content-integrity", "lookup", "read-exact", "listing", "missing-content", "write-ok", "commit-accept", "retry", "crash-atomicity", "checked-read", "extract", "extract-leftover", "removal", "exists", "format"],
             runs: (140, 2500),
-            rule: "a run = one victim call (write*, streamed write+commit, read*, Reader+check, copy*, hard_link*, remove*, remove_hash*, list, metadata*, link_to*) x flavour x cache shape (cold, warm, bucket > 8 KiB, content > one read buffer); inside it EVERY filesystem system call of the victim x each applicable errno (and short-write-then-ENOSPC for data writes) is injected one at a time; the call must return Err or a truthful Ok, never panic/hang; afterwards all other entries read back exactly, content area passes I1, the victim key is exactly old or new, and the same call repeated without faults succeeds. Non-trivial = the errno was actually delivered; distinct by trace hash. Also: faults that persist (every later call of that kind on that file fails), pure short writes, EINTR, victims whose commit is going to be rejected, fault pairs (thorough); in a fifth of the runs the SAME process makes the failed call again (state the failed attempt left inside the process is judged strictly); async victims run under first / last / seeded-random schedules of their own threads. 1 run in 12 is the full-disk family: the cache directory is a size-limited tmpfs of 128 KiB - 1 MiB mounted by the simulator (skipped, and counted in probe tiny_fs_unavailable, where mounting is not permitted) that really fills up while one traced client stores, removes and reads values; ENOSPC arrives wherever the kernel raises it, including the page fault of a mapped temp file (the client then dies of SIGBUS, which is a violation); a failed call must leave its key exactly old or new",
+            rule: "a run = one victim call (write*, streamed write+commit, read*, Reader+check, copy*, hard_link*, remove*, remove_hash*, list, metadata*, link_to*) x flavour x cache shape (cold, warm, bucket > 8 KiB, content > one read buffer); inside it EVERY filesystem system call of the victim x each applicable errno (and short-write-then-ENOSPC for data writes) is injected one at a time; the call must return Err or a truthful Ok, never panic/hang; afterwards all other entries read back exactly, content area passes I1, the victim key is exactly old or new, and the same call repeated without faults succeeds. Non-trivial = the errno was actually delivered; distinct by trace hash. Also: faults that persist (every later call of that kind on that file fails), pure short writes, EINTR, victims whose commit is going to be rejected, fault pairs (thorough); in a fifth of the runs the SAME process makes the failed call again (state the failed attempt left inside the process is judged strictly); async victims run under first / last / seeded-random schedules of their own threads. 1 run in 12 is the full-disk family: the cache directory is a size-limited tmpfs of 128 KiB - 1 MiB mounted by the simulator (skipped, and counted in probe tiny_fs_unavailable, where mounting is not permitted) that really fills up while one traced client stores, removes and reads values; ENOSPC arrives wherever the kernel raises it, including the page fault of a mapped temp file (the client then dies of SIGBUS, which is a violation); a failed call must leave its key exactly old or new. Also: short reads; short gathered writes; for read / Reader victims the content file is truncated by somebody else just before each call of the victim that names it (the victim must fail or be exact, and survive)",
             assumptions: A_SYS,
         },
         "C15" => CheckSpec {
